@@ -126,6 +126,30 @@ pub fn run(env: &Env) -> Report {
             }
             if rep.samples.len() < 3 { rep.sample(json!({"target": target, "opts": opts.bits_str(), "direct": render_obs(&ra, true)})); }
         }
+        // a long-lived context: hundreds of words (well over a thousand memo entries) composed in ONE context; every
+        // suffixed word is compared with a reference context that is replaced every ten words
+        if ui % 8 == 0 {
+            let case = format!("c05-{}-long", ui);
+            t.line(&format!("case {}", case));
+            let xdg = env.fresh_xdg(&case);
+            let mut opts = Opts::none(); opts.phonetic_suggestion = true; opts.smart_quote = ui % 16 == 0;
+            if let Some(mut long) = Sess::new(&mut t, &env.data, "long", PHONETIC, opts, &xdg) {
+                long.follow_sel = false;
+                let mut reference: Option<Sess> = None;
+                let nwords = if env.quick() { 160 } else { 1500 };
+                for wi in 0..nwords {
+                    if wi % 10 == 0 { if reference.is_some() { t.line("drop ref"); } reference = Sess::new(&mut t, &env.data, "ref", PHONETIC, opts, &xdg).map(|mut s| { s.follow_sel = false; s }); }
+                    let r = match reference.as_mut() { Some(r) => r, None => break };
+                    let base = { let mut w = pools.word(&mut rng); while !w.chars().all(|c| c.is_ascii_alphabetic()) || w.len() < 2 { w = pools.word(&mut rng); } w };
+                    let txt: String = format!("{}{}", base, rng.pick(&pools.suffixes)).chars().filter(|c| crate::code_ok(*c)).take(18).collect();
+                    let (oa, ob) = (long.type_text(&mut t, &txt), r.type_text(&mut t, &txt));
+                    if !same(&oa, &ob) { rep.violation("C05", "long-lived-context-differs", format!("word {} {:?} in a context that has composed {} words: {:?} vs fresh {:?}", wi, txt, wi, render_obs(&oa, true), render_obs(&ob, true)), json!({"stream": "c05", "layout": PHONETIC, "opts": opts.bits_str(), "words_before": wi, "events_tail": long.events.iter().rev().take(40).rev().collect::<Vec<_>>()})); break; }
+                    long.finish(&mut t); r.finish(&mut t);
+                    rep.eval(Some(&format!("long|{}|{}", ui, txt)));
+                    rep.count("long-lived-word");
+                }
+            }
+        }
         t.flush();
         rep
     });
